@@ -317,7 +317,7 @@ def _generate_case(fa, c, raw, n, seed, generate_many, generate_one, validate):
 
 def run_c20(ctx, fa):
     rnd = ctx.sub_rnd("c20")
-    n = 500 if ctx.quick() else 6000
+    n = 1000 if ctx.quick() else 8000
     cases = []
     while len(cases) < n:
         g = gen.Gen(rnd, logical=rnd.random() < 0.5, max_depth=rnd.choice([1, 2, 2, 3]), big=False, recursive=rnd.random() < 0.7)
